@@ -158,25 +158,21 @@ def check_lambdas(rep, recs, procs):
         for r, per in zip(chunk, outs):
             key = M.key_of(r)
             by_key[key] = r
-            worst = None
             for i, o in enumerate(per, 1):
                 nobj += 1
                 tally['%s/%s' % (o[0].split(':')[0], r['exp'][i - 1])] += 1
                 v = M.judge(r, i, o)
+                verdicts[(key, i)] = M.violation_class(v[0]) if v else None
                 if v:
-                    cls = M.violation_class(v[0])
-                    found.append((key, i, cls, v, o))
-                    if worst is None or M.SEVERITY.index(cls) < M.SEVERITY.index(worst):
-                        worst = cls
-            verdicts[key] = worst
+                    found.append((key, i, v, o))
     rep.validated(nobj)
-    rep.set('lambda_configurations', len(verdicts))
+    rep.set('lambda_configurations', len(by_key))
     rep.set('lambda_outcomes', dict(tally))
     if not tally.get('unsupported/found-or-unsupported') or not tally.get('found/found'):
         raise common.MachineryError('vacuity: no ambiguous / no resolvable lambda configuration was exercised')
     cl = M.Classifier(verdicts, by_key)
-    for key, i, cls, (rawsig, what), o in found:
-        sig, m = cl.signature(key, cls)
+    for key, i, (rawsig, what), o in found:
+        sig, m = cl.signature(key, i)
         r, mr = by_key[key], by_key[m]
         rep.violation(sig, _stable(what) + '; minimal failing configuration: ' + mr['text'].replace('\n    ', ' '),
                       dict(kind='lambda', config=r, index=i, outcome=list(o), local_signature=rawsig,
@@ -189,24 +185,31 @@ def check_lambdas(rep, recs, procs):
 def run(rep):
     t = TIERS[rep.tier]
     out = {}
+    only = os.environ.get('C15_ONLY')        # development aid: 'layout' or 'lambda'
 
     def tl(name, module, cfg):
         out[name] = tlc.run_tlc(module, cfg, workers=t['tlc_workers'], timeout=1500, name=name)
     th = [threading.Thread(target=tl, args=('c15layout', 'SourceLayout', LAYOUT_CFG % t['layout'])),
           threading.Thread(target=tl, args=('c15lambda', 'LambdaSelect', LAMBDA_CFG % t['lam']))]
+    if only:
+        th = [x for x, nm in zip(th, ('layout', 'lambda')) if nm == only]
     for x in th:
         x.start()
     for x in th:
         x.join()
     for name in ('c15layout', 'c15lambda'):
+        if only and name != 'c15' + only:
+            continue
         if name not in out:
             raise common.MachineryError('TLC run %s did not complete' % name)
         out[name].require_ok(name)
         rep.add_tlc(out[name])
     scratch = common.scratch('c15_mods')
     try:
-        check_layouts(rep, out['c15layout'].json, t['procs'])
-        check_lambdas(rep, out['c15lambda'].json, t['procs'])
+        if only != 'lambda':
+            check_layouts(rep, out['c15layout'].json, t['procs'])
+        if only != 'layout':
+            check_lambdas(rep, out['c15lambda'].json, t['procs'])
     finally:
         common.rmtree(scratch)
     rep.set('bounds', dict(layout=t['layout'], lam=t['lam']))
